@@ -51,14 +51,14 @@ var c18Outer = []string{"VisitItemsAscend", "VisitItemsDescend", "VisitItemsAsce
 var c18Inner = []string{"Get", "GetItem", "MinItem", "MaxItem", "GetTotals", "nested-visit", "nested-iterator", "Snapshot+read+Close", "Set", "Delete", "Flush", "EvictSomeItems", "AllocStats", "Len", "GetCollectionNames", "SetCollection-new", "SetCollection-existing-other", "RemoveCollection-other"}
 
 func c18Counts(tier string) (iters, reent, free int) {
-	return len(c18IterCases()), len(c18Outer) * len(c18Inner) * 3 * 3, pick(tier, 48, 2400)
+	return len(c18IterCases()) + len(c18FailCases()), len(c18Outer) * len(c18Inner) * 3 * 3, pick(tier, 48, 2400)
 }
 
 func init() {
 	register(&Prop{
 		ID: "C18", Level: "exploration", Race: true,
 		RaceFrom: func(tier string) int { a, b, _ := c18Counts(tier); return a + b },
-		Rule:     "iterator cases (enumerated): EVERY (collection size n in 0..6, direction, target class {below all, a present key, between keys, above all}, consumer stop position p in 0..n+1, tail in {Close; Close,Close; Close,Next; Next-until-false,Next; nothing after Next returned false; Close before the first Next}) x 3 cache states, plus sampled cases at n = 50 and 500. Monitors: the items delivered before the stop equal the model's range prefix; after Close() or exhaustion Next() returns false and Err() is nil; the producer goroutine (stack inside Collection.iterate) is gone - observed via runtime stacks, yielding first, wall-clock only as a backstop; the version it pinned is released (hook: refs of the current version back to 1 and not chained; public cross-check: a following mutation makes MkRootNodeLocs-FreeRootNodeLocs return to its baseline). Re-entrancy cases (enumerated): outer in {VisitItemsAscend, Descend, AscendEx, AscendBlockEx, Random, iterator loop} x inner in {Get, GetItem, MinItem, MaxItem, GetTotals, nested visit, nested iterator, Snapshot+read+Close, Set, Delete, Flush, EvictSomeItems, AllocStats, Len, GetCollectionNames, SetCollection of a new name, SetCollection / RemoveCollection of another collection} x callback position {first, middle, last} x cache state; the inner call runs inside the visitor callback on the same goroutine (mutations included: this goroutine is the mutator); the outer sequence must be that of the version pinned at its start, the inner results must match the current model, and the whole case must finish: a watchdog goroutine dumps all stacks if it does not, and 'every goroutine of the case parked in sync/channel operations' is reported as deadlock. Free-running cases (race-detector build): a mutator, a flusher and readers whose visitor callbacks and iterator loops call read operations (incl. AllocStats and nested visits) run in real parallelism with seeded delays at the iter.produce / visit.node hooks and GOMAXPROCS in {1, 2, all cores}; the same termination, goroutine-exit and no-deadlock monitors apply. Non-trivial = iterator abandoned before exhaustion or closed twice / inner call executed at least once; distinct = the enumerated tuple.",
+		Rule:     "failing-visit cases (enumerated): for sizes 3 and 9 on a flushed+evicted / re-opened file, each of VisitItemsAscend, VisitItemsDescend, IterateAscend, IterateDescend runs with the k-th file read failing (every k up to 2n+2; outright error or io.EOF), the consumer reads until Next() returns false and then closes once, twice or not at all; afterwards Next() must stay false, the producer goroutine must have exited and the version pin must be back (hook refs == 1, public counters balanced after one more mutation). iterator cases (enumerated): EVERY (collection size n in 0..6, direction, target class {below all, a present key, between keys, above all}, consumer stop position p in 0..n+1, tail in {Close; Close,Close; Close,Next; Next-until-false,Next; nothing after Next returned false; Close before the first Next}) x 3 cache states, plus sampled cases at n = 50 and 500. Monitors: the items delivered before the stop equal the model's range prefix; after Close() or exhaustion Next() returns false and Err() is nil; the producer goroutine (stack inside Collection.iterate) is gone - observed via runtime stacks, yielding first, wall-clock only as a backstop; the version it pinned is released (hook: refs of the current version back to 1 and not chained; public cross-check: a following mutation makes MkRootNodeLocs-FreeRootNodeLocs return to its baseline). Re-entrancy cases (enumerated): outer in {VisitItemsAscend, Descend, AscendEx, AscendBlockEx, Random, iterator loop} x inner in {Get, GetItem, MinItem, MaxItem, GetTotals, nested visit, nested iterator, Snapshot+read+Close, Set, Delete, Flush, EvictSomeItems, AllocStats, Len, GetCollectionNames, SetCollection of a new name, SetCollection / RemoveCollection of another collection} x callback position {first, middle, last} x cache state; the inner call runs inside the visitor callback on the same goroutine (mutations included: this goroutine is the mutator); the outer sequence must be that of the version pinned at its start, the inner results must match the current model, and the whole case must finish: a watchdog goroutine dumps all stacks if it does not, and 'every goroutine of the case parked in sync/channel operations' is reported as deadlock. Free-running cases (race-detector build): a mutator, a flusher and readers whose visitor callbacks and iterator loops call read operations (incl. AllocStats and nested visits) run in real parallelism with seeded delays at the iter.produce / visit.node hooks and GOMAXPROCS in {1, 2, all cores}; the same termination, goroutine-exit and no-deadlock monitors apply. Non-trivial = iterator abandoned before exhaustion or closed twice / inner call executed at least once; distinct = the enumerated tuple.",
 		Assumptions: []string{
 			"mutations inside callbacks only from the goroutine that is the store's single mutator",
 			"'all interleavings of consumer and producer' are explored by repetition with delays, not exhausted",
@@ -67,7 +67,7 @@ func init() {
 		NumCases:   func(tier string) int { a, b, c := c18Counts(tier); return a + b + c },
 		Run:        runC18,
 		Floor: func(tier string, st map[string]int64) string {
-			for _, k := range []string{"c18.iterator-cases", "c18.closed-before-first-next", "c18.closed-twice", "c18.abandoned-mid-range", "c18.producer-exit-observed", "c18.pin-release-observed", "c18.reentrant-cases", "c18.inner-calls", "c18.inner/Set", "c18.inner/Flush", "c18.inner/SetCollection-new", "c18.inner/RemoveCollection-other", "c18.inner/AllocStats", "c18.inner/nested-iterator", "c18.free-running-cases", "c18.free-running-callback-calls"} {
+			for _, k := range []string{"c18.iterator-cases", "c18.closed-before-first-next", "c18.closed-twice", "c18.abandoned-mid-range", "c18.producer-exit-observed", "c18.pin-release-observed", "c18.reentrant-cases", "c18.inner-calls", "c18.inner/Set", "c18.inner/Flush", "c18.inner/SetCollection-new", "c18.inner/RemoveCollection-other", "c18.inner/AllocStats", "c18.inner/nested-iterator", "c18.free-running-cases", "c18.free-running-callback-calls", "c18.visits-ended-by-a-read-error", "c18.visit-errors-reported"} {
 				if st[k] == 0 {
 					return "no " + k + " observed"
 				}
@@ -117,8 +117,10 @@ func runC18(ctx *Ctx, idx int) Result {
 	var res Result
 	var hung string
 	switch {
-	case idx < ni:
+	case idx < len(c18IterCases()):
 		hung = guardCase(60*time.Second, func() { res = runC18Iter(ctx, idx, c18IterCases()[idx], r) })
+	case idx < ni:
+		hung = guardCase(60*time.Second, func() { res = runC18Fail(ctx, idx, c18FailCases()[idx-len(c18IterCases())], r) })
 	case idx < ni+nr:
 		hung = guardCase(60*time.Second, func() { res = runC18Reentrant(ctx, idx, idx-ni, r) })
 	default:
